@@ -73,6 +73,41 @@ pub fn dispatch(op: &str, a: &[Arg]) -> Option<String> {
                 tag
             )
         }
+        // pathraw flag x<raw>: the raw name bytes as a foreign producer stores them (flag = UTF-8 bit); the accessors work
+        // on the DECODED name, whose byte positions differ from the raw ones for CP437 / invalid UTF-8 bytes
+        "pathraw" => {
+            let raw = a[1].b().to_vec();
+            let e = E { name: raw.clone(), flags: if a[0].n() != 0 { 1 << 11 } else { 0 }, made_by: (3 << 8) | 20, ..Default::default() };
+            let z = build(&[e], &[], &[]);
+            let mut ar = zip::ZipArchive::new(Cursor::new(z.clone())).unwrap();
+            let f = ar.by_index(0).unwrap();
+            let enc = f.enclosed_name().map(|p| p.as_os_str().as_bytes().to_vec());
+            let man = f.mangled_name().as_os_str().as_bytes().to_vec();
+            let decoded = f.name().as_bytes().to_vec();
+            let c = comps(Path::new(std::ffi::OsStr::from_bytes(&decoded)));
+            drop(f);
+            let mut v = V(vec![], vec![]);
+            let sr = ZipStreamReader::new(Cursor::new(z)).visit(&mut v);
+            let mut tag = String::new();
+            if sr.is_err() || v.0.len() != 1 || v.0[0] != (enc.clone(), man.clone()) {
+                tag = " STREAM-DIFF".into();
+            }
+            for m in &v.1 {
+                if *m != (enc.clone(), man.clone()) {
+                    tag = " STREAM-META-DIFF".into();
+                }
+            }
+            format!(
+                "[{} {} {}]{}",
+                match &enc {
+                    Some(p) => ob(p),
+                    None => "NONE".into(),
+                },
+                ob(&man),
+                c,
+                tag
+            )
+        }
         // model-free closed-form sweep over all strings of length <= L over {a . / \ NUL}
         "path_sweep" => {
             let l = a[0].n() as usize;
